@@ -2,6 +2,7 @@ import SJ.Props.C06
 import SJ.Props.C06Int
 import SJ.Props.C06Via
 import SJ.Props.C06Typed128
+import SJ.Props.C06KeyDoc
 #print axioms SJ.Props.C06.c06_typed
 #print axioms SJ.Props.C06.c06_accessors
 #print axioms SJ.Props.C06Int.c06_overflow_guard_spec
@@ -16,3 +17,5 @@ import SJ.Props.C06Typed128
 #print axioms SJ.Props.C06.specInt_eq_targetInt
 #print axioms SJ.Props.C06.c06_typed_text
 #print axioms SJ.Props.C06.c06_typed_128
+#print axioms SJ.Props.C06.c06_key_doc
+#print axioms SJ.Props.C06.c06_key_doc_bool
